@@ -88,8 +88,11 @@ func (r *Reassembler) PushMessage(msg *auparse.AuditMessage) {
 		return
 	}
 
+	verifYield("push:before-put")
 	r.list.Put(msg)
+	verifYield("push:before-cleanup")
 	evicted, lost := r.list.CleanUp()
+	verifYield("push:before-callback")
 	r.callback(evicted, lost)
 }
 
@@ -114,7 +117,9 @@ func (r *Reassembler) Maintain() error {
 	if atomic.LoadInt32(&r.closed) == 1 {
 		return errReassemblerClosed
 	}
+	verifYield("maintain:before-cleanup")
 	evicted, lost := r.list.CleanUp()
+	verifYield("maintain:before-callback")
 	r.callback(evicted, lost)
 	return nil
 }
@@ -122,7 +127,9 @@ func (r *Reassembler) Maintain() error {
 // Close flushes any cached events and closes the Reassembler.
 func (r *Reassembler) Close() error {
 	if atomic.CompareAndSwapInt32(&r.closed, 0, 1) {
+		verifYield("close:before-clear")
 		evicted, lost := r.list.Clear()
+		verifYield("close:before-callback")
 		r.callback(evicted, lost)
 		return nil
 	}
